@@ -224,6 +224,56 @@ func jProjectLocal(text string) (*lDesc, error) {
 	return d, nil
 }
 
+// jToRemote: what the other peer reads in a description pion generated
+// (coq: Model/JsepMidPair.v to_remote, used by the two-peer theorem of C09)
+func jToRemote(l *lDesc) *jDesc {
+	d := &jDesc{}
+	for _, x := range l.Secs {
+		s := jSec{Kind: x.Kind, Port0: x.Port0, Codec: x.Creds}
+		if x.HasMid {
+			s.Mid = x.Mid
+		}
+		if len(x.Dirs) > 0 {
+			s.Dir = x.Dirs[0]
+		}
+		d.Secs = append(d.Secs, s)
+	}
+	if len(l.Bundle) > 0 {
+		v := "BUNDLE " + strings.Join(l.Bundle, " ")
+		d.Group = &v
+	}
+	return d
+}
+
+func jDescDiff(a, b *jDesc) string {
+	if len(a.Secs) != len(b.Secs) {
+		return fmt.Sprintf("%d sections vs %d", len(a.Secs), len(b.Secs))
+	}
+	for i := range a.Secs {
+		if a.Secs[i] != b.Secs[i] {
+			return fmt.Sprintf("section %d: %+v vs %+v", i, a.Secs[i], b.Secs[i])
+		}
+	}
+	switch {
+	case (a.Group == nil) != (b.Group == nil):
+		return "group present on one side only"
+	case a.Group != nil && *a.Group != *b.Group:
+		return fmt.Sprintf("group %q vs %q", *a.Group, *b.Group)
+	}
+	return ""
+}
+
+// a delivered description that is not to_remote of what was generated: the two-peer
+// model (not pion) would be wrong about what the receiving peer reads
+func (l *jLog) projFailure() (string, string) {
+	for _, e := range l.inOrder() {
+		if e.ProjDiff != "" {
+			return "delivered-description-differs-from-to_remote", fmt.Sprintf("peer %d call %d: %s", e.Op.P, e.Seq, e.ProjDiff)
+		}
+	}
+	return "", ""
+}
+
 func jKindCh(k string) string {
 	switch k {
 	case "audio":
@@ -315,6 +365,9 @@ type jEntry struct {
 	RemoteGroup   *string  // its first session-level a=group value (nil = none)
 	PendingMids   []string // mids of the pending remote description, if any
 	Err           string
+	// srdpeer: how the delivered description (read as a remote description) differs from
+	// to_remote (coq: Model/JsepMidPair.v) of the same text read as a generated description
+	ProjDiff string
 }
 
 type jLog struct {
@@ -552,6 +605,9 @@ func jsepRun(c jCase) *jLog {
 				break
 			}
 			e.Op.Desc = d
+			if ld, lerr := jProjectLocal(text); lerr == nil {
+				e.ProjDiff = jDescDiff(jToRemote(ld), d)
+			}
 			err = pc.SetRemoteDescription(webrtc.SessionDescription{Type: webrtc.NewSDPType(op.Ty), SDP: text})
 			drain(pc)
 		default:
